@@ -281,6 +281,8 @@ class G:
                 sec = (rng.choice(MATH_OPS) + ' ' if rng.random() < 0.4 else '') + self.math_body()
                 if rng.random() < 0.2:
                     sec += ' \\text{' + self.names.word() + '} ' + self.math_body(1)
+                elif rng.random() < 0.15:
+                    sec = rng.choice(MATH_OPS) + rng.choice(['', ' {}', ' '])        # a section that holds an operator only (any column)
                 secs.append(sec)
             if len(secs) > 1 and rng.random() < 0.15:
                 secs[0] = ''            # an empty first alignment section:  & = b
